@@ -88,7 +88,12 @@ pub assume_specification<T, K> [http::HeaderMap::<T>::get] (m: &http::HeaderMap<
 // http docs: "Yields a &str slice if the HeaderValue only contains visible ASCII chars", an error otherwise
 pub assume_specification [http::HeaderValue::to_str] (v: &http::HeaderValue) -> (r: std::result::Result<&str, http::header::ToStrError>)
     ensures match r { Ok(s) => hv_text(*v) == Some(s@), Err(_) => hv_text(*v) is None };
-#[verifier::allow(undeclared_external_trait)]
+#[verifier::external_trait_specification]
+pub trait ExFromStr: Sized {
+    type ExternalTraitSpecificationFor: core::str::FromStr;
+    type Err;
+    fn from_str(s: &str) -> core::result::Result<Self, Self::Err>;
+}
 pub assume_specification<F> [str::parse::<F>] (s: &str) -> (r: std::result::Result<F, <F as std::str::FromStr>::Err>)
     where F: std::str::FromStr,
     ensures parse_spec::<F>(s@) == (match r { Ok(v) => Some(v), Err(_) => None });
